@@ -61,7 +61,9 @@ fn worker() {
             out.push_str(&d.replace(['\n', '\x1f', '\x1e'], " "));
         }
         let mut h = stdout.lock();
-        if writeln!(h, "{}", out).is_err() || h.flush().is_err() {
+        // the marker separates answers from anything the library prints on stdout
+        // (ObjectWriterFS::complete has a println!)
+        if writeln!(h, "\x01R{}", out).is_err() || h.flush().is_err() {
             break;
         }
     }
